@@ -401,9 +401,9 @@ func keyDepth(v ssa.Value, d int) string {
 		}
 		return v.Value.ExactString()
 	case *ssa.Parameter:
-		return v.Name()
+		return ParamName(v)
 	case *ssa.FreeVar:
-		return v.Name()
+		return FreeVarName(v)
 	case *ssa.Global:
 		return v.Name()
 	case *ssa.Function:
@@ -468,6 +468,14 @@ func keyDepth(v ssa.Value, d int) string {
 		return keyDepth(v.X, d+1) + "[" + keyDepth(v.Low, d+1) + ":" + keyDepth(v.High, d+1) + "]"
 	case *ssa.Alloc:
 		if v.Comment != "" {
+			// a parameter spilled to the stack carries the parameter's name: use its reviewed name
+			if fn := v.Parent(); fn != nil {
+				for _, q := range fn.Params {
+					if q.Name() == v.Comment {
+						return "&" + ParamName(q)
+					}
+				}
+			}
 			return "&" + v.Comment
 		}
 		return "&alloc"
@@ -613,4 +621,36 @@ func Returns(fn *ssa.Function) []*ssa.Return {
 		}
 	}
 	return out
+}
+
+// ParamName is the name rules refer to a parameter by: the name it had on the
+// reviewed tree (params_gen.go), so that renaming a parameter in the repository
+// does not change any key. Unknown functions use the current name.
+func ParamName(p *ssa.Parameter) string {
+	fn := p.Parent()
+	if fn != nil {
+		if names, ok := paramAlias[FuncName(fn)]; ok {
+			for i, q := range fn.Params {
+				if q == p && i < len(names) && len(names) == len(fn.Params) {
+					return names[i]
+				}
+			}
+		}
+	}
+	return p.Name()
+}
+
+// FreeVarName: same for captured variables of closures.
+func FreeVarName(v *ssa.FreeVar) string {
+	fn := v.Parent()
+	if fn != nil {
+		if names, ok := freeVarAlias[FuncName(fn)]; ok {
+			for i, q := range fn.FreeVars {
+				if q == v && i < len(names) && len(names) == len(fn.FreeVars) {
+					return names[i]
+				}
+			}
+		}
+	}
+	return v.Name()
 }
